@@ -1,7 +1,7 @@
 INIT Init
 NEXT Next
 CONSTANT CMax = 30
-CONSTANT Variant = "ok"
+CONSTANT Variant = "div_no_norm"
 INVARIANT KernelRefines
 INVARIANT DivRoundedRefines
 INVARIANT AddSubRefines
